@@ -21,6 +21,9 @@ func controlLine(line string) {
 	case "arm":
 		gateArm(point, id)
 		fmt.Println("ARMED", point, id)
+	case "armonce":
+		gateArmOnce(point)
+		fmt.Println("ARMED", point, "once")
 	case "notify":
 		gateNotify(point)
 		fmt.Println("NOTIFYING", point)
